@@ -6,10 +6,13 @@
     tree.  The theorems hold for EVERY position (no bound) and every tree satisfying [commit_pre];
     [same_type] (the commit does not change the inventory type) restricts the theorems to commits
     without declaration swap; the type-changing commit (upgrade of an existing object, rollback of f6ecfaf)
-    is covered by the regression Example below and by the correspondence check at every position. *)
+    is covered by the theorems `..._any_type` at the end of this file ([same_type] replaced by the weaker
+    [decl_swap_ok], Proofs/CommitUpgradeDefs.v), by the regression Example below and by the correspondence check
+    at every position. *)
 From Coq Require Import List NArith Bool.
 From Rocfl Require Import Base.Bytes Model.FsOps Model.FsTree Model.Commit 
-  Proofs.CommitFacts Proofs.CommitPre Proofs.CommitPhases Corr.CheckCommit.
+  Proofs.CommitFacts Proofs.CommitPre Proofs.CommitPhases Corr.CheckCommit
+  Proofs.CommitUpgradeDefs Proofs.CommitUpgradeInv Proofs.CommitUpgradeRun Proofs.CommitUpgradeWitness.
 Import ListNotations.
 
 (** a single fault at any position (j = Fault k), or none (j = NoInj): the main object is old or new;
@@ -113,3 +116,82 @@ Example C04_upgrade_existing_object_atomic :
                      && obj_validb ex_cfg (run_tree (commit ex_cfg) t1 NoInj) ex_mo)))
           (List.seq 0 50) = true.
 Proof. vm_compute. split; reflexivity. Qed.
+
+(** * commits that change the inventory type as well (the tail of upgrade_object on an existing object)
+
+    write_new_version then swaps the declaration inside its protected closure (fs.rs:521-532): create the new
+    0=ocfl_object_X.Y (open O_CREAT|O_EXCL, then the write), unlink the old declaration(s) found BEFORE the rename
+    (fs.rs:514-517); when anything in the closure fails the rollback (fs.rs:534-553) unlinks the new declaration,
+    writes the saved root inventory and sidecar back and renames the version directory back.  "old" / "new" compare
+    the whole object subtree ([same_at (c_mo c)]), declaration files included.
+
+    [same_type] is replaced by [decl_swap_ok c t0 i0] =
+      same_type c t0 i0  \/  (no version directory name of the staged inventory is a declaration file name
+                              /\ the object root lists no declaration file twice).
+    Both conjuncts hold for every real repository (version directories are named "v<digits>"; read_dir yields a
+    name once) and both are needed by the model: [C05_hypothesis_plain_versions_needed],
+    [C04_hypothesis_nodup_decls_needed].  No position of the type-changing commit violates the statement. *)
+Theorem C04_fault_atomic_any_type :
+  forall (c : cfg) (t0 : tree) (i0 : invr),
+    commit_pre c t0 i0 -> decl_swap_ok c t0 i0 ->
+    forall j : inj, (forall n, j <> Kill n) -> (forall n, j <> Stop n) ->
+      let res := run (commit c) t0 j in
+      let t' := w_tree (snd res) in
+      let tnew := run_tree (commit c) t0 NoInj in
+      (same_at (c_mo c) t' t0 \/ same_at (c_mo c) t' tnew) /\
+      (is_ok (fst res) = true -> same_at (c_mo c) t' tnew) /\
+      (lookup t' (c_mo c ++ [head_of i0]) = None ->
+         same_at (c_mo c) t' t0 /\
+         forall d, In d (i_man (committed_inv c i0)) -> lookup t' (c_so c ++ d) = lookup t0 (c_so c ++ d)).
+Proof. exact commit_fault_atomic_any_type. Qed.
+Print Assumptions C04_fault_atomic_any_type.
+
+Theorem C04_stop_atomic_any_type :
+  forall (c : cfg) (t0 : tree) (i0 : invr),
+    commit_pre c t0 i0 -> decl_swap_ok c t0 i0 ->
+    forall k : nat, i_vs i0 <> [head_of i0] ->
+      let res := run (commit c) t0 (Stop k) in
+      let t' := w_tree (snd res) in
+      let tnew := run_tree (commit c) t0 NoInj in
+      (same_at (c_mo c) t' t0 \/ same_at (c_mo c) t' tnew) /\
+      is_killed (fst res) = false /\
+      (lookup t' (c_mo c ++ [head_of i0]) = None ->
+         same_at (c_mo c) t' t0 /\
+         forall d, In d (i_man (committed_inv c i0)) -> lookup t' (c_so c ++ d) = lookup t0 (c_so c ++ d)).
+Proof. exact commit_stop_atomic_any_type. Qed.
+Print Assumptions C04_stop_atomic_any_type.
+
+(** the hypothesis is decidable by evaluation, and implied by [same_type] *)
+Theorem C04_swap_hypothesis_checkable :
+  forall c t i, decl_swap_ok_b c t i = true -> decl_swap_ok c t i.
+Proof. exact decl_swap_ok_b_sound. Qed.
+Print Assumptions C04_swap_hypothesis_checkable.
+
+(** without the second conjunct of [decl_swap_ok] the fault clause fails in the model (a tree that binds the old
+    declaration twice, fault at the second unlink) *)
+Theorem C04_hypothesis_nodup_decls_needed :
+  exists c t i k,
+    commit_pre c t i /\ plain_versions i /\
+    let t' := run_tree (commit c) t (Fault k) in
+    let tnew := run_tree (commit c) t NoInj in
+    ~ (same_at (c_mo c) t' t \/ same_at (c_mo c) t' tnew).
+Proof. exact C04_any_type_needs_nodup_decls. Qed.
+Print Assumptions C04_hypothesis_nodup_decls_needed.
+
+(** non-vacuity: the hypotheses hold for the commit that completes the upgrade 1.0 -> 1.1 of an existing object
+    ([same_type] does not); its 34 calls: positions 0-28 old + error (26 / 27 creation / write of the new declaration,
+    28 removal of the old one: the rollback restores the old object), 29-32 new + error (a fault while the staged
+    object is removed), then new + ok; a stop request yields old + ok (0-16: the "last chance" check) or new + ok *)
+Example C04_any_type_nonvacuous :
+  commit_pre_b ex_cfg (ex_tree ex_d11) (ex_inv ex_d11) = true /\
+  same_type_b ex_cfg (ex_tree ex_d11) (ex_inv ex_d11) = false /\
+  decl_swap_ok_b ex_cfg (ex_tree ex_d11) (ex_inv ex_d11) = true /\
+  sweep (commit ex_cfg) ex_cfg (ex_tree ex_d11) Fault 36 =
+    [(0,1); (0,1); (0,1); (0,1); (0,1); (0,1); (0,1); (0,1); (0,1); (0,1); (0,1); (0,1); (0,1); (0,1); (0,1); (0,1);
+     (0,1); (0,1); (0,1); (0,1); (0,1); (0,1); (0,1); (0,1); (0,1); (0,1); (0,1); (0,1); (0,1); (1,1); (1,1); (1,1);
+     (1,1); (1,0); (1,0); (1,0)]%N /\
+  sweep (commit ex_cfg) ex_cfg (ex_tree ex_d11) Stop 36 =
+    [(0,0); (0,0); (0,0); (0,0); (0,0); (0,0); (0,0); (0,0); (0,0); (0,0); (0,0); (0,0); (0,0); (0,0); (0,0); (0,0);
+     (0,0); (1,0); (1,0); (1,0); (1,0); (1,0); (1,0); (1,0); (1,0); (1,0); (1,0); (1,0); (1,0); (1,0); (1,0); (1,0);
+     (1,0); (1,0); (1,0); (1,0)]%N.
+Proof. vm_compute. repeat split. Qed.
